@@ -27,7 +27,7 @@ PROPS = {
                          "model + whole-table decide over tables regenerated from bits.rs; correspondence on all (offset<192,width) and on both select paths"),
     "C05": P("C05", regimes=["raw.push_int.straddle", "raw.set_int.straddle", "raw.resize.grow", "raw.resize.shrink", "raw.pop_int",
                              "iv.push.truncating", "iv.pack.repack", "iv.pack.same", "iv.resize.grow", "iv.resize.shrink", "iv.pop", "iv.eq", "raw.eq"]),
-    "C01": P("C01", regimes=["bv.select.long", "zbv.select.long", "bv.select.long.later", "zbv.select.long.later", "bv.select.short.scan.later", "bv.select.short.scan", "bv.select.short.block", "bv.select.sample",
+    "C01": P("C01", gens=["C01", "C09bv", "C10bv"], regimes=["bv.select.long", "zbv.select.long", "bv.select.long.later", "zbv.select.long.later", "bv.select.short.scan.later", "bv.select.short.scan", "bv.select.short.block", "bv.select.sample",
                              "bv.rank.clamp", "bv.rank.word0", "bv.copy", "bv.from_bits", "bv.from_raw", "bv.pred", "bv.succ"]),
     "C09": P("C09", regimes=["bv.rank.clamp", "bv.select.none", "sp.rank.clamp", "sp.select.none", "rl.rank.clamp", "wm.rank.absent",
                              "wmc.mapup.below", "iv.ctor.reject", "bv.it.pred", "sp.it.pred", "rl.it.pred", "wm.it.pred"]),
@@ -37,13 +37,13 @@ PROPS = {
                          "arithmetic modes; runtime: the same recipes with bounds hooks on in all four build configurations"),
     "C10": P("C10", regimes=["bv.it.one", "bv.it.zero", "bv.it.bits", "bv.it.sel", "bv.it.pred", "bv.it.succ", "sp.it.one", "sp.it.bits",
                              "sp.it.bits.multiset", "sp.it.zero", "rl.it.one", "rl.it.zero", "rl.it.bits", "rl.it.run", "wm.it.value", "wm.it.items", "iv.iter"]),
-    "C02": P("C02", regimes=["sp.select0.binsearch", "sp.select0.scan", "sp.rank.clamp", "sp.build.set", "sp.build.reject", "sp.w.rule.match"],
+    "C02": P("C02", gens=["C02", "C09sp", "C10sp"], regimes=["sp.select0.binsearch", "sp.select0.scan", "sp.rank.clamp", "sp.build.set", "sp.build.reject", "sp.w.rule.match"],
              trusted=["the f64 width rule of SparseBuilder::get_params is a parameter of the model (theorems hold for every width 1..63)"]),
-    "C15": P("C15", regimes=["sp.build.multiset", "sp.from_iter", "sp.it.bits.multiset", "sp.it.one"]),
+    "C15": P("C15", gens=["C15", "C09sp", "C10sp"], regimes=["sp.build.multiset", "sp.from_iter", "sp.it.bits.multiset", "sp.it.one"]),
     "C16": P("C16", regimes=["sb.history", "sb.full", "sb.partial", "sb.new.reject", "rlb.history"]),
-    "C03": P("C03", regimes=["rl.blocks.1", "rl.blocks.le8", "rl.blocks.gt8", "rl.runs", "rl.select0", "rl.rank.clamp", "rl.build"]),
+    "C03": P("C03", gens=["C03", "C09rl", "C10rl"], regimes=["rl.blocks.1", "rl.blocks.le8", "rl.blocks.gt8", "rl.runs", "rl.select0", "rl.rank.clamp", "rl.build"]),
     "C11": P("C11", regimes=["bv.copy", "sp.copy", "rl.copy", "rl.eq", "sp.eq", "bv.eq"]),
-    "C04": P("C04", regimes=["wm.type.u8", "wm.type.u16", "wm.type.u32", "wm.type.u64", "wm.type.usize", "wmc.mapdown", "wmc.mapup",
+    "C04": P("C04", gens=["C04", "C09wm", "C10wm"], regimes=["wm.type.u8", "wm.type.u16", "wm.type.u32", "wm.type.u64", "wm.type.usize", "wmc.mapdown", "wmc.mapup",
                              "wm.rank.absent", "wm.select.absent", "wm.pred", "wm.succ"], shards=dict(quick=16, thorough=16)),
     "C06": P("C06", regimes=["ser.reload.raw", "ser.reload.iv", "ser.reload.bv", "ser.reload.sp", "ser.reload.rl", "ser.reload.wm", "ser.seq",
                              "ser.file", "ser.sizes", "ser.val.bytes", "ser.val.string", "ser.val.optu64", "ser.load.ok"]),
